@@ -38,7 +38,7 @@ OFF = {"absent": None, "zero": 0, "pos": 7}
 SETTERS = ["limit_offset", "offset_limit", "slice", "getitem"]
 MSSQL_SETTERS = ["fetch_next_offset", "offset_fetch_next", "top", "top_limit"]
 POSITIONS = ["top", "from-subquery", "in-subquery", "set-operand", "set-operation", "join-subquery", "cte", "insert-select-self", "select-into-self"]
-SURROUND = ["plain", "where", "groupby", "join", "nested-order-in", "window-order", "cte-ordered", "distinct"]
+SURROUND = ["plain", "where", "groupby", "join", "nested-order-in", "window-order", "cte-ordered", "distinct", "for-update", "for-update-skip-locked"]
 
 
 def cases(tier, seed, shard, nshards):
@@ -55,7 +55,7 @@ def cases(tier, seed, shard, nshards):
                     for order in (False, True):
                         for pos in POSITIONS:
                             for mode in ("inline", "param"):
-                                for sur in (SURROUND if tier == "thorough" else SURROUND[:7]):
+                                for sur in SURROUND:
                                     k += 1
                                     if k % nshards == shard:
                                         yield {"d": d, "setter": setter, "lim": ln, "off": on, "order": order, "pos": pos,
@@ -88,6 +88,10 @@ def base_query(d, order, sur, reg, t, target=None):
         q = q.join(u).on(t.id == u.id)
     elif sur == "distinct":
         q = q.distinct()
+    elif sur == "for-update":
+        q = q.for_update()
+    elif sur == "for-update-skip-locked":
+        q = q.for_update(skip_locked=True, of=("t",))
     elif sur == "nested-order-in":  # an ORDER BY that belongs to a nested query, not to this one
         u = reg["Table"]("u")
         q = q.where(t.id.isin(reg[d].from_(u).select(u.id).orderby(u.id).limit(1000)))
@@ -439,6 +443,10 @@ def run_case(case, mon):
         for i in range(len(t1) - 3):
             if t1[i].kind == "WORD" and t1[i].value == "TOP" and [x.text for x in t1[i + 1:i + 4]] == ["(", str(lim), ")"] \
                     and i > 0 and t1[i - 1].kind == "WORD" and t1[i - 1].value in ("SELECT", "DISTINCT"):
+                if i + 4 < len(t1) and t1[i + 4].kind == "WORD" and t1[i + 4].value in ("DISTINCT", "ALL"):
+                    # T-SQL: SELECT [ALL | DISTINCT] [TOP (n)] <select list>
+                    mon.violation("%s:top-before-distinct:%s" % (DIALECT_OF[d], pos), "TOP (n) is written in front of %s: %r" % (t1[i + 4].value, sql1[:200]))
+                    return
                 t1 = t1[:i] + t1[i + 4:]
                 top_seen = True
                 break
@@ -466,6 +474,16 @@ def run_case(case, mon):
             mon.violation(K("statement-changed"), "tokens %r of the unpaginated statement disappeared" % [x.text for x in removed][:8],
                           {"plain": sql0, "paginated": sql1})
             return
+    if tail and fam in ("mysql", "oracle"):
+        # the locking clause closes the query: [LIMIT ..] [FOR UPDATE ..] in MySQL, <row limiting clause> [FOR UPDATE] in Oracle
+        j = a - 1
+        lock_words = {"FOR", "UPDATE", "SHARE", "NOWAIT", "SKIP", "LOCKED", "OF"}
+        while j >= 0 and ((t1[j].kind == "WORD" and t1[j].value in lock_words) or t1[j].kind == "IDENT" or (t1[j].kind == "PUNCT" and t1[j].text == ",")):
+            if t1[j].kind == "WORD" and t1[j].value == "FOR" and j + 1 < len(t1) and t1[j + 1].kind == "WORD" and t1[j + 1].value in ("UPDATE", "SHARE"):
+                mon.violation(K("after-locking-clause"), "the row-limiting clause follows the locking clause: %r" % sql1[:300], {"sql": sql1})
+                return
+            j -= 1
+        mon.count("locking_clause_order_checked")
     fault = match_tail(d, tail_wo_top, vals1, nparam_before, case["order"], lim, off, pos, top)
     mon.count("tails_matched")
     if fault:
